@@ -6,6 +6,7 @@ package parser
 import (
 	"errors"
 	"fmt"
+	"strconv"
 
 	"github.com/theory/sqljson/path/ast"
 )
@@ -25,4 +26,25 @@ func Parse(path string) (*ast.AST, error) {
 	}
 
 	return lexer.result, nil
+}
+
+// newInteger returns the integer literal node for text. A literal that does
+// not fit in int64 is a parse error (ast.NewInteger would panic); the zero
+// node returned with it only lets the parser carry on to report the error.
+func newInteger(lex pathLexer, text string) *ast.IntegerNode {
+	if _, err := strconv.ParseInt(text, 0, 64); err != nil {
+		lex.Error(fmt.Sprintf("integer literal %v is out of range", text))
+		return ast.NewInteger("0")
+	}
+	return ast.NewInteger(text)
+}
+
+// newNumeric returns the numeric literal node for text. A literal outside the
+// float64 range is a parse error (ast.NewNumeric would panic).
+func newNumeric(lex pathLexer, text string) *ast.NumericNode {
+	if _, err := strconv.ParseFloat(text, 64); err != nil {
+		lex.Error(fmt.Sprintf("numeric literal %v is out of range", text))
+		return ast.NewNumeric("0")
+	}
+	return ast.NewNumeric(text)
 }
